@@ -8,7 +8,9 @@
 (*                        dependencies earlier: their states are not bound) *)
 (*   BmGrant      Grant(t, m)         BmCall     Call(t) with the captured  *)
 (*                                               dependency machines        *)
-(*   BmReply nil  Work(t), succeeding BmReply err Work(t), failing          *)
+(*   BmReply      the outcome of Work(t), which is a silent step somewhere  *)
+(*                between BmCall and BmReply (nil: done; err: failed, or    *)
+(*                done and the reply lost with the machine)                 *)
 (*   BmReply fatal  Work(t) of a task whose user code fails; TaskState ERROR then SetErr(t) *)
 (*   BmSetLoc     SetLoc(t)           SmAssign   AssignOk(t) / Assign(t)    *)
 (*                                               with the logged lost flag  *)
@@ -82,8 +84,12 @@ Match(ev) ==
          /\ run[ev.t].m = ev.m /\ Call(ev.t) /\ run'[ev.t].pc = "called"
          /\ {run'[ev.t].locs[d] : d \in Deps[ev.t]} = SetOf(ev.machines) /\ UNCHANGED <<tokill, early>>
     [] k = "BmReply" ->
-         /\ run[ev.t].m = ev.m /\ Work(ev.t)
-         /\ run'[ev.t].pc = (IF ev.err = "nil" THEN "done" ELSE IF ev.err = "fatal" THEN "fatal" ELSE "fail") /\ UNCHANGED <<tokill, early>>
+         \* the worker ran the task at some point between the call and this reply (the silent step Work below)
+         /\ run[ev.t].m = ev.m /\ UNCHANGED <<tokill, early>>
+         /\ CASE ev.err = "nil" -> run[ev.t].pc = "done" /\ Stutter
+              [] ev.err = "fatal" -> run[ev.t].pc = "fatal" /\ Stutter
+              [] OTHER -> \/ run[ev.t].pc = "fail" /\ Stutter
+                          \/ ReplyLost(ev.t)
     [] k = "BmSetLoc" -> run[ev.t].m = ev.m /\ SetLoc(ev.t) /\ UNCHANGED <<tokill, early>>
     [] k = "SmAssign" ->
          /\ run[ev.t].m = ev.m /\ known[ev.m] = ev.lost
@@ -106,7 +112,9 @@ Match(ev) ==
 
 Consume == l <= Len(Recs) /\ Match(Recs[l]) /\ l' = l + 1
 \* a machine the harness is killing dies at some point after the kill was started
-Silent == \E m \in tokill : Kill(m) /\ tokill' = tokill \ {m} /\ l' = l /\ UNCHANGED early
+\* ... and the worker's own step is not logged by the driver: it happens between BmCall and BmReply
+Silent == \/ \E m \in tokill : Kill(m) /\ tokill' = tokill \ {m} /\ l' = l /\ UNCHANGED early
+          \/ \E t \in Tasks : run[t].pc = "called" /\ Work(t) /\ l' = l /\ UNCHANGED <<tokill, early>>
 TraceNext == Consume \/ Silent
 TraceSpec == TraceInit /\ [][TraceNext]_tvars
 
